@@ -22,16 +22,17 @@ Lemma bparse_mixed_level sc D :
   schema_wf sc = true ->
   (forall f2 mi vs ic, (S f2 <= D)%nat -> wf_value f2 sc mi vs = true -> small (encode f2 sc mi vs) ->
      exists cx cv, bparse D sc mi ic (br_of (encode f2 sc mi vs)) = Ok (vs, cx, cv)) ->
-  forall mi m ic f vs x, nth_error sc mi = Some m -> (S f <= D)%nat ->
+  forall mi m ic c f vs x, nth_error sc mi = Some m -> (S f <= D)%nat ->
   wf_value (S f) sc mi vs = true -> small (encode (S f) sc mi vs) ->
-  mixed m ic (elems_fields f sc (flds m) vs) x ->
-  exists cx cv, bparse (S D) sc mi ic (br_of x) = Ok (vs, cx, cv).
+  mixed m ic c (elems_fields f sc (flds m) vs) x ->
+  if c then bparse (S D) sc mi ic (br_of x) = Err E_CRITICAL
+  else exists cx cv, bparse (S D) sc mi ic (br_of x) = Ok (vs, cx, cv).
 Proof.
-  intros Hsc Hsub mi m ic f vs x Hm Hf Hw Hs Hmix.
+  intros Hsc Hsub mi m ic c f vs x Hm Hf Hw Hs Hmix.
   rewrite bparse_S, Hm. unfold wf_value in Hw. rewrite Hm in Hw.
   unfold encode, the_model in Hs. rewrite (nth_error_nth' sc mi m _ Hm) in Hs.
   unfold br_of.
-  apply (fields_loop sc D D Hsub m (length sc) (schema_model_wf sc mi m Hsc Hm) ic f Hf vs Hw Hs
+  apply (fields_loop sc D D Hsub m (length sc) (schema_model_wf sc mi m Hsc Hm) ic f Hf vs Hw Hs c
            (length (flds m)) 0%nat); try lia.
   - apply init_inv. symmetry. eapply all2_length; eauto.
   - exact Hmix.
@@ -61,7 +62,7 @@ Proof.
     + assert (Hm : exists m, nth_error sc mi = Some m).
       { unfold wf_value in Hw. destruct (nth_error sc mi) as [m|]; [eauto|discriminate]. }
       destruct Hm as [m Hm].
-      apply (bparse_mixed_level sc (S D) Hsc) with (m := m) (f := f); auto.
+      apply (bparse_mixed_level sc (S D) Hsc) with (m := m) (c := false) (f := f); auto.
       * intros f2 mi2 vs2 ic2 Hf2 Hw2 Hs2. apply IH; auto. lia.
       * unfold encode, the_model. rewrite (nth_error_nth' sc mi m _ Hm).
         unfold wf_value in Hw. rewrite Hm in Hw.
@@ -78,13 +79,20 @@ Proof.
   unfold elements, encode, the_model. rewrite (nth_error_nth' sc mi m _ Hm). apply concat_elems_fields. exact Hw.
 Qed.
 
-Lemma mixed_insert m ic es1 es2 u : unk m ic u -> mixed m ic (es1 ++ es2) (concat es1 ++ u ++ concat es2).
+Lemma mixed_insert m ic es1 es2 u : unk m ic false u -> mixed m ic false (es1 ++ es2) (concat es1 ++ u ++ concat es2).
 Proof.
   intros Hu. induction es1 as [|e es1 IH]; cbn [app concat].
   - destruct es2 as [|e es2]; cbn [concat].
     + rewrite app_nil_r. apply mixed_nil. exact Hu.
     + apply mixed_cons; [exact Hu|apply mixed_concat].
-  - rewrite <- app_assoc. apply (mixed_cons m ic [] e (es1 ++ es2)); [constructor|exact IH].
+  - rewrite <- app_assoc. apply (mixed_cons m ic false [] e (es1 ++ es2)); [constructor; reflexivity|exact IH].
+Qed.
+
+Lemma mixed_insert_crit m ic es1 es2 u : unk m ic true u -> mixed m ic true (es1 ++ es2) (concat es1 ++ u).
+Proof.
+  intros Hu. induction es1 as [|e es1 IH]; cbn [app concat].
+  - apply mixed_stop; [reflexivity|exact Hu].
+  - rewrite <- app_assoc. apply (mixed_cons m ic true [] e (es1 ++ es2)); [constructor; reflexivity|exact IH].
 Qed.
 
 (* an unrecognised element (type number not a field of the model; non-critical, or the caller asked to ignore
@@ -99,8 +107,26 @@ Proof.
   assert (Hm : exists m, nth_error sc mi = Some m).
   { unfold wf_value in Hw. destruct (nth_error sc mi) as [m|]; [eauto|discriminate]. }
   destruct Hm as [m Hm]. unfold elements, the_model in *. rewrite (nth_error_nth' sc mi m _ Hm) in *.
-  apply (bparse_mixed_level sc D Hsc) with (m := m) (f := f); auto.
+  apply (bparse_mixed_level sc D Hsc) with (m := m) (c := false) (f := f); auto.
   - intros f2 mi2 vs2 ic2 Hf2 Hw2 Hs2. destruct D as [|D]; [lia|]. apply bparse_roundtrip; auto. lia.
   - rewrite Hel. replace (tlv t pl ++ concat es2) with ((tlv t pl ++ []) ++ concat es2) by (rewrite app_nil_r; reflexivity).
-    apply mixed_insert. apply unk_cons; [|exact Hpl|constructor]. unfold is_unk. auto.
+    apply mixed_insert. apply unk_cons; [|exact Hpl|constructor; reflexivity]. unfold is_unk. auto.
+Qed.
+
+(* an unrecognised CRITICAL element (type number <= 31 or odd, no field of the model) at any element boundary makes the
+   parser reject the input with ErrUnrecognizedField, unless the caller asked to ignore critical elements; whatever
+   follows it (`junk`: its value and the rest of the encoding, or anything else) is irrelevant *)
+Theorem bparse_unknown_critical_rejected sc : schema_wf sc = true ->
+  forall D f mi vs es1 es2 t l junk, (S f <= D)%nat -> wf_value (S f) sc mi vs = true -> small (encode (S f) sc mi vs) ->
+  elements f sc mi vs = es1 ++ es2 ->
+  find_field t 0 (flds (the_model sc mi)) = None -> critical t = true -> t < two64 -> l < two64 ->
+  bparse (S D) sc mi false (br_of (concat es1 ++ tl_enc t ++ tl_enc l ++ junk)) = Err E_CRITICAL.
+Proof.
+  intros Hsc D f mi vs es1 es2 t l junk Hf Hw Hs Hel Hnf Hc Ht Hl.
+  assert (Hm : exists m, nth_error sc mi = Some m).
+  { unfold wf_value in Hw. destruct (nth_error sc mi) as [m|]; [eauto|discriminate]. }
+  destruct Hm as [m Hm]. unfold elements, the_model in *. rewrite (nth_error_nth' sc mi m _ Hm) in *.
+  apply (bparse_mixed_level sc D Hsc) with (m := m) (c := true) (f := f) (vs := vs); auto.
+  - intros f2 mi2 vs2 ic2 Hf2 Hw2 Hs2. destruct D as [|D]; [lia|]. apply bparse_roundtrip; auto. lia.
+  - rewrite Hel. apply mixed_insert_crit. apply unk_crit; auto.
 Qed.
